@@ -487,6 +487,10 @@ class ConfigWalk:
         """The entries of a dictionary, in the order they are visited"""
         return x.items()
 
+    def listpositions(self, x: list):
+        """The position under which each element of a list is visited"""
+        return range(len(x))
+
     def pretasks(self, pre_tasks: list):
         """The pre-tasks of a configuration, in the order they are visited"""
         return pre_tasks
@@ -543,7 +547,7 @@ class ConfigWalk:
 
         if isinstance(x, list):
             result = []
-            for i, sv in enumerate(x):
+            for i, sv in zip(self.listpositions(x), x):
                 with self.list(i):
                     result.append(self(sv))
             return result
@@ -798,6 +802,20 @@ class ConfigInformation:
                 # a configuration shared by two entries is generated under
                 # the smallest key
                 return sorted(x.items(), key=lambda item: item[0])
+
+            def listpositions(self, x: list):
+                # As for the identifier, the elements flagged as meta-parameters
+                # do not count: the position of the other elements does not
+                # depend on them; flagged elements are numbered apart
+                positions, count, ignored = [], 0, 0
+                for element in x:
+                    if is_ignored(element):
+                        positions.append(f"__meta__{ignored}")
+                        ignored += 1
+                    else:
+                        positions.append(count)
+                        count += 1
+                return positions
 
             def pretasks(self, pre_tasks: list):
                 # As for the identifier, the order in which the pre-tasks were
